@@ -207,6 +207,10 @@ fn arc_atom_table() -> Option<Arc<AtomTable>> {
 impl RawBlockTraits for AtomTable {
     #[inline]
     fn init_size() -> usize {
+        #[cfg(feature = "verif-hooks")]
+        if let Some(n) = crate::machine::verif::atom_table_init_size() {
+            return n;
+        }
         ATOM_TABLE_INIT_SIZE
     }
 
@@ -321,6 +325,8 @@ impl Atom {
             let atom_table =
                 arc_atom_table().expect("We should only have an Atom while there is an AtomTable");
 
+            #[cfg(feature = "verif-hooks")]
+            crate::machine::verif::sched::point(crate::machine::verif::sched::point::AS_PTR);
             AtomTableRef::try_map(atom_table.inner.read(), |buf| unsafe {
                 let ptr = buf
                     .block
@@ -492,23 +498,37 @@ impl AtomTable {
         }
 
         loop {
+            #[cfg(feature = "verif-hooks")]
+            crate::machine::verif::sched::point(crate::machine::verif::sched::point::READ_BLOCK);
             let mut block_epoch = atom_table.inner.read();
+            #[cfg(feature = "verif-hooks")]
+            crate::machine::verif::sched::point(crate::machine::verif::sched::point::READ_TABLE);
             let mut table_epoch = block_epoch.table.read();
 
+            #[cfg(feature = "verif-hooks")]
+            crate::machine::verif::sched::point(crate::machine::verif::sched::point::LOOKUP);
             if let Some(atom) = block_epoch.lookup_str(string) {
                 return atom;
             }
 
             // take a lock to prevent concurrent updates
+            #[cfg(feature = "verif-hooks")]
+            crate::machine::verif::sched::acquire();
             let update_guard = atom_table.update.lock().unwrap();
 
+            #[cfg(feature = "verif-hooks")]
+            crate::machine::verif::sched::point(crate::machine::verif::sched::point::RECHECK_BLOCK);
             let is_same_allocation = RcuRef::same_epoch(&block_epoch, &atom_table.inner.read());
+            #[cfg(feature = "verif-hooks")]
+            crate::machine::verif::sched::point(crate::machine::verif::sched::point::RECHECK_TABLE);
             let is_same_atom_list = RcuRef::same_epoch(&table_epoch, &block_epoch.table.read());
 
             if !(is_same_allocation && is_same_atom_list) {
                 // some other thread raced us between our lookup and
                 // us aquring the update lock,
                 // try again
+                #[cfg(feature = "verif-hooks")]
+                crate::machine::verif::sched::release();
                 continue;
             }
 
@@ -517,10 +537,16 @@ impl AtomTable {
 
             unsafe {
                 let len_ptr = loop {
+                    #[cfg(feature = "verif-hooks")]
+                    crate::machine::verif::sched::point(crate::machine::verif::sched::point::ALLOC);
                     let ptr = block_epoch.block.alloc(size);
 
                     if ptr.is_null() {
                         // garbage collection would go here
+                        #[cfg(feature = "verif-hooks")]
+                        crate::machine::verif::sched::point(
+                            crate::machine::verif::sched::point::GROW,
+                        );
                         let new_block = block_epoch.block.grow_new().unwrap();
                         let new_table = Arcu::new(table_epoch.clone(), GlobalEpochCounterPool);
                         let new_alloc = InnerAtomTable {
@@ -538,6 +564,8 @@ impl AtomTable {
                 // SAFETY: `len_ptr` was obtained from `block_epoch.block.alloc()`
                 let len_offset = block_epoch.block.get_offset(len_ptr);
 
+                #[cfg(feature = "verif-hooks")]
+                crate::machine::verif::sched::point(crate::machine::verif::sched::point::WRITE);
                 write_to_ptr(string, len_ptr);
 
                 let atom = AtomCell::new()
@@ -551,9 +579,13 @@ impl AtomTable {
 
                 let mut table = table_epoch.clone();
                 table.insert(atom.into());
+                #[cfg(feature = "verif-hooks")]
+                crate::machine::verif::sched::point(crate::machine::verif::sched::point::PUBLISH);
                 block_epoch.table.replace(table);
 
                 // explicit drop to ensure we don't accidentally drop it early
+                #[cfg(feature = "verif-hooks")]
+                crate::machine::verif::sched::release();
                 drop(update_guard);
 
                 return atom;
